@@ -53,8 +53,8 @@ def main():
     three = sum(1 for a in range(1, N) for b in range(1, N) for c in range(1, N)
                 if a + b + c <= N)
     assert (two, three) == (10, 10)
-    # 1 (niter=0) + (N+1) lock-step + 1 (callback run) + N records + splits
-    assert acc.evals == 1 + (N + 1) + 1 + N + two + three, acc.evals
+    # 1 (niter=0) + (N+1) lock-step + 1 (callback run) + N records + 2 falsy callbacks + splits
+    assert acc.evals == 1 + (N + 1) + 1 + N + 2 + two + three, acc.evals
     assert acc.skipped == 0
 
     # rounding-level difference between optimised and reference is accepted, 1e-9 is not
@@ -111,6 +111,32 @@ def main():
     assert symptoms(c11.Case('c', fresh, cb_twice, keys=('x', 'y')))[0] == ['callback_count']
     # ... unless two calls per iteration are documented
     assert symptoms(c11.Case('c', fresh, cb_twice, keys=('x', 'y'), mult=2))[0] == []
+
+    # a valid callback whose truth value is False must be called like any other
+    def cb_truthy_guard(st, n, cb):
+        for _ in range(n):
+            st['x'].lincomb(0.5, st['x'], 1, st['y'])
+            st['y'] += 1
+            if cb:
+                cb(st['x'])
+    assert symptoms(c11.Case('c', fresh, cb_truthy_guard, keys=('x', 'y')))[0] == \
+        ['falsy_callback_count']
+    acc2 = c11._Acc()
+    c11._check_case(c11.Case('c', fresh, cb_truthy_guard, keys=('x', 'y')), 5, False, acc2,
+                    'synthetic', full_cb=False)
+    assert not acc2.first
+
+    # a reference trajectory built by the harness (documented iteration)
+    def traj(N):
+        out = []
+        for k in range(N + 1):
+            st = fresh()
+            good_ref(st, k)
+            out.append(c11._snap(st, ('x', 'y')))
+        return out
+    assert symptoms(c11.Case('t', fresh, good, keys=('x', 'y'), ref_traj=traj))[0] == []
+    assert symptoms(c11.Case('t', fresh, hidden, keys=('x', 'y'), ref_traj=traj))[0] == \
+        ['iterate_differs_from_reference']
 
     def cb_skip_last(st, n, cb):
         for k in range(n):
